@@ -81,11 +81,6 @@ theorem holds_of_good (cfg : Cfg) (hg : Good cfg) : Holds cfg := by
 
 /-! ### Non-vacuity: a three-session history with updates and deletes meets every hypothesis -/
 
-def goodCfg : Cfg :=
-  { rejectsEmptyKey := true, rejectsLongKey := true, flushGe := true, flushAtCount := true,
-    deleteRemoves := true, validatesCrc := true, validatesULen := true, boundsCompressedSize := true,
-    boundsDecodedLen := true, v2Fallback := true, rejectsLongName := true }
-
 def demoOps : List Op :=
   [.write ⟨1, [0x61], [1, 2, 3]⟩, .write ⟨1, [0x62], [4]⟩, .close, .reopen,
    .write ⟨2, [0x61], [9]⟩, .write ⟨3, [0x62], []⟩, .sync, .close, .reopen,
